@@ -210,9 +210,38 @@ pub fn gen_faulty(ctx: &mut Ctx) -> Option<FCase> {
 /// C06: every instruction family in every dedication pattern - default, dedicated to T, dedicated to U, in any
 /// combination on the same member / type (two counterparts, all kinds)
 pub fn gen_dedication(ctx: &mut Ctx) -> Option<FCase> {
-    let is_enum = ctx.flag();
-    let mut tags = vec![format!("host={}", if is_enum { "enum" } else { "struct" }), "two-counterparts".to_string(), "names=dedication".to_string()];
+    let host = ctx.choose(3);
+    let is_enum = host == 1;
+    let mut tags = vec![format!("host={}", ["struct", "enum", "unit-struct"][host]), "two-counterparts".to_string(), "names=dedication".to_string()];
     let slots: [Option<&str>; 3] = [None, Some("T"), Some("U")];
+    if host == 2 {
+        // unit struct: what the counterpart looks like depends on the hint and on the #[ghosts] that apply to it
+        // (seed C06-02: ghosts dedicated to T changed the body generated for U)
+        let mut it = Item::new_struct("S", Shape::Unit, vec![]);
+        for cp in ["T", "U"] {
+            let hint = ["", " as {}", " as ()"][ctx.choose(3)];
+            tags.push(format!("hint:{}={}", cp, hint.trim()));
+            it.attrs.push(Instr::new("map", None, &format!("{}{}", cp, hint)));
+            it.attrs.push(Instr::new("into_existing", None, &format!("{}{}", cp, hint)));
+        }
+        let forms = ["ghosts(g{d}: { {n} })", "ghosts(0: { {n} })", "ghosts_owned(g{d}: { {n} })", "ghosts_ref(0: { {n} })"];
+        let mut n = 0;
+        for (si, ded) in slots.iter().enumerate() {
+            let c = ctx.choose(forms.len() + 1);
+            if c == 0 {
+                continue;
+            }
+            n += 1;
+            let txt = forms[c - 1].replace("{d}", &si.to_string()).replace("{n}", &(si + 1).to_string());
+            let i = txt.find('(').unwrap();
+            it.attrs.push(Instr::new(&txt[..i], *ded, &txt[i + 1..txt.len() - 1]));
+            tags.push(format!("ghosts:{}={}", ded.unwrap_or("default"), c));
+        }
+        if n == 0 {
+            return ctx.reject();
+        }
+        return Some(FCase { item: it, tags });
+    }
     let mut type_attrs: Vec<Instr> = vec![];
     let mut m_attrs: Vec<Instr> = vec![];
     let mut m_ty = "i32";
